@@ -729,6 +729,73 @@ func ruleR24_3(c *Check) {
 	r.Check(okW && okR, wt, "length prefix: uint64, little endian, on both sides", nil, "writeTo and Load disagree on the list length prefix")
 }
 
+func ruleR24_4(c *Check) {
+	w := c.W
+	r := c.Rule("R24.4", "E5", 4, "the version Stream.Backup returns — the `since` of the next incremental backup — is the running maximum of the versions of the KVs it wrote (raised in Send for every KV of every list, `if max < kv.Version { max = kv.Version }`), not a property of the database at return time; DB.Backup returns what Stream.Backup returned",
+		"a returned version above what was dumped (e.g. the database's current maximum) makes the next incremental backup skip every commit that landed while this backup was running")
+	bk := w.F("badger.Stream.Backup")
+	ver := w.Field("pb.KV.Version")
+	// the variable returned on success
+	var acc *types.Var
+	for _, e := range bk.successExits() {
+		rs := e.Node.(*ast.ReturnStmt)
+		if len(rs.Results) != 2 {
+			continue
+		}
+		id, ok := unparen(rs.Results[0]).(*ast.Ident)
+		if !ok {
+			r.Check(false, bk, "returned version is the maximum dumped", rs, "Stream.Backup returns "+short(w, rs.Results[0])+", not the running maximum of the versions it wrote")
+			continue
+		}
+		acc, _ = w.Use(id).(*types.Var)
+	}
+	if acc == nil {
+		return
+	}
+	isAcc := func(e ast.Expr) bool { id, ok := unparen(e).(*ast.Ident); return ok && w.Use(id) == types.Object(acc) }
+	isVer := func(e ast.Expr) bool { _, isSel := unparen(e).(*ast.SelectorExpr); return isSel && w.fieldOf(e) == ver }
+	n := 0
+	var k keyer
+	bk.walkDeep(func(own *Fn, nd ast.Node) bool {
+		as, ok := nd.(*ast.AssignStmt)
+		if !ok || len(as.Lhs) != 1 || len(as.Rhs) != 1 || !isAcc(as.Lhs[0]) || as.Tok == token.DEFINE {
+			return true
+		}
+		n++
+		okRhs := isVer(as.Rhs[0])
+		op, g := w.guardRel(w.Guards(own, as), isVer, isAcc, false)
+		r.Check(okRhs && g != nil && (op == token.GTR || op == token.GEQ), own, k.key("raised to a larger dumped version", w, as), as, "the returned version is not maintained as `if max < kv.Version { max = kv.Version }`")
+		// for every KV: in a range over the list's KVs, not under further conditions
+		inRange := false
+		for p := w.parentOf(as); p != nil; p = w.parentOf(p) {
+			if rs, ok := p.(*ast.RangeStmt); ok && w.fieldOf(rs.X) == w.Field("pb.KVList.Kv") {
+				inRange = true
+			}
+		}
+		r.Check(inRange, own, k.key("every KV of every list takes part", w, as), as, "the maximum is not computed in a range over list.Kv")
+		for _, gd := range w.Guards(own, as) {
+			if _, ok := w.cmpRoles(gd.Cond, gd.Val, isVer, isAcc); ok || gd.Implicit {
+				continue
+			}
+			if _, isFor := gd.At.(*ast.ForStmt); isFor {
+				continue
+			}
+			r.Check(false, own, k.key("no KV is left out of the maximum", w, as), as, "a KV takes part in the returned version only under "+short(w, gd.Cond))
+		}
+		return true
+	})
+	r.Exists(n >= 1, bk, "running maximum maintained", nil, "the variable Stream.Backup returns is never raised from kv.Version")
+	db := w.F("badger.DB.Backup")
+	okD := false
+	for _, e := range db.allExits() {
+		rs := e.Node.(*ast.ReturnStmt)
+		if len(rs.Results) == 1 && w.isCallTo(rs.Results[0], w.Func("badger.Stream.Backup")) {
+			okD = true
+		}
+	}
+	r.Check(okD, db, "DB.Backup returns Stream.Backup's result", nil, "DB.Backup does not return the result of Stream.Backup")
+}
+
 // onlyLoopGuards: every guard of n in f is a loop condition or an error-return guard preceding it.
 func onlyLoopGuards(w *World, f *Fn, n ast.Node) bool {
 	for _, g := range w.Guards(f, n) {
@@ -753,6 +820,7 @@ func propC24(c *Check) {
 	ruleR24_1(c)
 	ruleR24_2(c)
 	ruleR24_3(c)
+	ruleR24_4(c)
 	ruleR11_4(c)
 	ruleR25_1(c)
 }
